@@ -1,9 +1,10 @@
-\* C12 MC, thorough: 2 readers x 3 changes x 3 files x 2 queries per snapshot (safety + liveness)
+\* C12 MC, thorough: 2 readers x 3 changes x 3 files x 1 query per snapshot, at most 1 file per Change written twice
+\* (any interleaving of the writes); safety + liveness
 CONSTANTS
   Readers = {1, 2}
   Files = {1, 2, 3}
   K = 3
-  MaxQ = 2
+  MaxQ = 1
   ExclusiveHost = TRUE
   ChecksFlag = TRUE
   SyntheticWrite = TRUE
